@@ -140,4 +140,55 @@ def callHandler (h : Nat) (rule : Bool → Bool) (body : List Act) (k : KSt) : K
 /-- `KeyProcessor.reset()` -/
 def kpReset (k : KSt) : KSt := { k with prev := none }
 
+/-! ### the shipped emacs bindings, fully modelled (a small key set)
+
+    basic.py / emacs.py / named_commands.py:
+      Keys.Any  -> self-insert            save_before = if_no_repeat
+      backspace -> backward-delete-char   save_before = if_no_repeat
+      delete    -> delete-char            save_before = if_no_repeat
+      left / right / home / end / c-k     default save_before (always)
+      c-_ , c-x c-u -> undo               save_before = never
+    plus a harness binding that calls `Buffer.redo()` (never saves; the library has no redo key).
+    No numeric argument (`event.arg = 1`). -/
+
+/-- `len(document.current_line_before_cursor)` -/
+def lineBeforeLen (b : Buf) : Nat := ((b.text.take b.cur).reverse.takeWhile (· ≠ '\n')).length
+/-- `len(document.current_line_after_cursor)` -/
+def lineAfterLen (b : Buf) : Nat := ((b.text.drop b.cur).takeWhile (· ≠ '\n')).length
+
+inductive EKey
+  | char (c : Char) | backspace | delete | left | right | home | eol | killLine
+  | undo | undoXU | redo
+deriving Repr, DecidableEq
+
+/-- identity of the `Binding` that handles the key -/
+def EKey.hid : EKey → Nat
+  | .char _ => 0 | .backspace => 1 | .delete => 2 | .left => 3 | .right => 4 | .home => 5
+  | .eol => 6 | .killLine => 7 | .undo => 8 | .undoXU => 9 | .redo => 10
+
+/-- `save_before` of that binding as a function of `is_repeat` -/
+def EKey.rule : EKey → Bool → Bool
+  | .char _, rep => !rep | .backspace, rep => !rep | .delete, rep => !rep
+  | .left, _ => true | .right, _ => true | .home, _ => true | .eol, _ => true | .killLine, _ => true
+  | .undo, _ => false | .undoXU, _ => false | .redo, _ => false
+
+def killLine (b : Buf) : Buf :=
+  if b.text[b.cur]? = some '\n' then delete 1 b else delete (lineAfterLen b) b
+
+def EKey.acts : EKey → List Act
+  | .char c => [.edit (insertText [c])]
+  | .backspace => [.edit (deleteBefore 1)]
+  | .delete => [.edit (Ptk.C07.delete 1)]
+  | .left => [.edit fun b => setCursor ((b.cur : Int) - min (lineBeforeLen b) 1) b]
+  | .right => [.edit fun b => setCursor ((b.cur : Int) + min (lineAfterLen b) 1) b]
+  | .home => [.edit fun b => setCursor ((b.cur : Int) - lineBeforeLen b) b]
+  | .eol => [.edit fun b => setCursor ((b.cur : Int) + lineAfterLen b) b]
+  | .killLine => [.edit Ptk.C07.killLine]
+  | .undo => [.undo]
+  | .undoXU => [.undo]
+  | .redo => [.redo]
+
+/-- one key press in emacs mode -/
+def ekey (k : KSt) (key : EKey) : KSt := callHandler key.hid key.rule key.acts k
+
 end Ptk.C07
